@@ -163,7 +163,25 @@ def bounded_c25(tier, seed):
     return guarded(p, _check_c25, tier, seed)
 
 
-BOUNDED = [bounded_c25]
+def _check_tower_histories(part: Part, tier, seed):
+    """The laws hold at every moment of a history, not only on a freshly built system: queries asked before the numeric tower
+    is enabled (or before an edge arrives) must not survive the update (shared harness with C26: cache transparency)."""
+    from . import c26
+    c26.type_query_histories(part, tier, seed, pid="C25")
+
+
+def bounded_tower_histories(tier, seed):
+    p = Part("C25", "queries-interleaved-with-updates", [f"{TS}:TypeSystem.enable_numeric_tower", f"{TS}:TypeSystem.add_subclass_edge",
+                                                         f"{TS}:TypeSystem.is_subclass", f"{TS}:TypeSystem.is_subtype",
+                                                         f"{TS}:TypeSystem.subtype_distance"],
+             scope="bare TypeSystem over 4 classes and int/float/bool/complex/object: 48 (thorough 240) seeded orders of 5 "
+                   "add_subclass_edge updates and enable_numeric_tower, all cached queries on all pairs after every update compared "
+                   "with the answers after emptying every lru cache (numeric-tower agreement, transitivity and distance laws are "
+                   "laws of the recomputed answers, checked by the other part)", bound="9 classes, 6 updates per history")
+    return guarded(p, _check_tower_histories, tier, seed)
+
+
+BOUNDED = [bounded_c25, bounded_tower_histories]
 META = {"level": "other", "explanation": "bounded contract check of the real TypeSystem over generated hierarchies and a fixed "
                                          "family of small proper types (exhaustive over pairs and triples of that family)",
         "rule": "one case per ordered pair of types per hierarchy"}
